@@ -20,7 +20,7 @@ RULE = (
     "identifier, failed assert, unknown directive, misplaced sealing, invalid type parameter, invalid capacity, unknown data type, "
     "and the lazily committed / finalize-time ones: out-of-range constant, invalid attribute name, duplicate attribute name, bad "
     "aggregation, missing serialization mode, expression nested beyond the interpreter stack, file that is not UTF-8) and @print; prefix of 0..2 (thorough 3) and suffix of 0..1 (thorough 2) lines over "
-    "{empty, comment, field, field+comment, directive, padding field, constant, a directive that continues on the next physical line (line break inside a string literal), a comment containing FF / VT / FS / GS / RS / NEL / LS / PS}; LF / CRLF / lone CR / mixed line endings; location in {target, dependency in a lookup root, dependency of "
+    "{empty, comment, field, field+comment, directive, padding field, constant, a directive that continues on the next physical line (line break inside a string literal), a comment containing FF / VT / FS / GS / RS / NEL / LS / PS, a directive on one physical line whose string literals denote line breaks through escapes}; LF / CRLF / lone CR / mixed line endings; location in {target, dependency in a lookup root, dependency of "
     "a dependency, dependency in the same root read after its referrer, dependency in the same root read before its referrer} with "
     "the reference on line 2..4 of the referrer. Non-trivial iff the prefix is non-empty or the location is not the target; "
     "distinct by canonical hash of the tuple"
